@@ -340,6 +340,8 @@ type env struct {
 	// the replica checker lives as long as the cluster and was created before the replication
 	// configuration got its values (configuration changes online)
 	rc *checker.ReplicaChecker
+	// so does this checker controller, created while the placement-rules switch had the other value
+	ctl *schedule.CheckerController
 }
 
 func must(err error) {
@@ -353,6 +355,9 @@ func newEnv(in *input) *env {
 	ctx, cancel := context.WithCancel(context.Background())
 	c := &ordCluster{mockcluster.NewCluster(ctx, config.NewTestOptions())}
 	rc := checker.NewReplicaChecker(c, cache.NewDefaultCache(16))
+	c.SetEnablePlacementRules(in.Rules == rulesOff)
+	oc := schedule.NewOperatorController(ctx, c, nil)
+	ctl := schedule.NewCheckerController(ctx, c, c.RuleManager, oc)
 	c.SetMaxReplicas(in.MaxReplicas)
 	c.SetLocationLabels(labelCfg[in.Labels])
 	c.SetIsolationLevel(isoCfg[in.Isolation])
@@ -384,7 +389,7 @@ func newEnv(in *input) *env {
 	for i := 0; i < 5000; i++ {
 		c.AllocID()
 	}
-	return &env{key: in.cfg(), cl: c, oc: schedule.NewOperatorController(ctx, c, nil), ctx: ctx, cancel: cancel, rc: rc}
+	return &env{key: in.cfg(), cl: c, oc: oc, ctx: ctx, cancel: cancel, rc: rc, ctl: ctl}
 }
 
 const gib = 1 << 30
@@ -721,6 +726,8 @@ func propose(e *env, src string, info *core.RegionInfo) []*operator.Operator {
 		return []*operator.Operator{e.rc.Check(info)}
 	case "rule-checker":
 		return []*operator.Operator{checker.NewRuleChecker(e.cl, e.cl.RuleManager, cache.NewDefaultCache(16)).Check(info)}
+	case "check-region/long-lived-controller":
+		return e.ctl.CheckRegion(info)
 	}
 	// a new controller per call: the rule checker inside keeps counters between calls
 	ctx, cancel := context.WithCancel(e.ctx)
@@ -1069,7 +1076,7 @@ func (rn *runner) evalOnce(e *env, in *input, w *world) (v *violation, proposed 
 	if in.Rules != rulesOff {
 		direct = "rule-checker"
 	}
-	for _, src := range []string{direct, "check-region"} {
+	for _, src := range []string{direct, "check-region", "check-region/long-lived-controller"} {
 		if v := check(src, propose(e, src, r.Info())); v != nil {
 			return v, proposed
 		}
